@@ -10,7 +10,7 @@ the argument objects) must be unchanged.
 """
 
 from ..history import HistoryCheck, is_inplace, method_kind, state_digest
-from ..grammar import COLL_KINDS
+from ..labels import collection_normalised_in_place
 from ..snap import Snapshot
 from ..world import SkipOp
 
@@ -25,19 +25,6 @@ def line_ks(n, tier, src_choice=None):
     for i in range(m):
         ks.add(1 + (i * (n - 1)) // max(1, m - 1))
     return sorted(k for k in ks if 1 <= k <= n)
-
-
-def _resolve(ref, snap):
-    """Replace ['N', idx] references by the referenced object's id (index-independent)."""
-    if isinstance(ref, list):
-        if len(ref) == 2 and ref[0] == "N" and isinstance(ref[1], int):
-            return ["N", snap.desc[ref[1]][0]]
-        return [_resolve(x, snap) for x in ref]
-    return ref
-
-
-def _same_modulo_index(d1, d2, s1, s2):
-    return _resolve(d1[2], s1) == _resolve(d2[2], s2)
 
 
 class C01(HistoryCheck):
@@ -91,7 +78,7 @@ class C01(HistoryCheck):
         if not before.same(after):
             what = self._classify(before, after, recv, argobjs, others)
             via = "-"
-            if what in ("args", "receiver") and self._whole_value_normalised(world, op, mk, out, before, after):
+            if what in ("args", "receiver") and collection_normalised_in_place(world, op, out, before, after):
                 via = "collection_normalised_in_place"
             ctx.violate(
                 {"invariant": "unchanged_" + what, "family": fam, "verb": verb, "attr_kind": akind,
@@ -101,40 +88,6 @@ class C01(HistoryCheck):
                 step=idx,
             )
         return out
-
-    @staticmethod
-    def _whole_value_normalised(world, op, mk, out, before, after):
-        """
-        Label for the footprint of one known defect: CollectionAttrMutator.prepare normalises
-        *in place* whatever collection object reaches a whole-value route (the caller's argument
-        for with_/update_/update(), the receiver's own collection for transform_/update_ whose
-        function returns its input).  All three must hold:
-          (1) only container shells (list/dict/set/KeyedList/KeyedSet) changed -- a change inside
-              an element (spec instance, Box) never qualifies;
-          (2) the op is a whole-value route of a collection attribute;
-          (3) the injected fault fired inside that pass (`_prepare_items` on the stack), or the
-              pass is observable without a fault: non-identity item preparer, or a KeyedSet / KeyedList
-              (re-adding items reorders the set / the key index).
-        """
-        fam, verb, aname, akind = mk
-        role = world.role_of(world.resolve(op["on"]))
-        info = world.info(role)
-        names = []
-        if fam == "scalar" and verb in ("with", "update", "transform") and akind in COLL_KINDS:
-            names = [aname]
-        elif fam == "toplevel" and verb in ("update", "transform"):
-            names = [n for n in op.get("kw", {}) if n in info and info[n]["kind"] in COLL_KINDS]
-        if not names:
-            return False
-        b = {d[0]: d for d in before.desc}
-        for d in after.desc:
-            o = b.get(d[0])
-            if o is not None and not _same_modulo_index(o, d, before, after):
-                if d[1] not in ("list", "dict", "set", "KeyedList", "KeyedSet"):
-                    return False
-        if out.fired and "_prepare_items" in out.fired[3]:
-            return True
-        return any(info[n].get("prepare_item") not in (None, "ident") or info[n]["kind"] in ("kset", "klist") for n in names)
 
     @staticmethod
     def _classify(before, after, recv, argobjs, others):
